@@ -137,3 +137,8 @@ package directive
 //@   loop 1 invariant 1 <= i && i <= last && last == len(b) - 1 && len(c) <= i - 1 && len(b) >= 2
 //@   loop 1 decreases last - i
 //@   loop 1 frame nothing
+
+// ---------------------------------------------------------------- package-level state (C16, C03)
+// Package-level variables of the whole repository are written only by initialisers and by the functions listed here
+// (the sync.Once body that fills the keyword table).
+//@ globalwriters [C16, C03] : NewDirectiveType$1
